@@ -82,7 +82,7 @@ CHECKS = {
    note="Trusted: gqlref.IntrospectResolver (2018-shaped prelude of gqlparser 2.5.1), schemacanon.",
    ref="DESIGN.md §6 C16"),
  "C08": dict(engine="sched", cat="model_checking",
-   technique="stateless model checking of the implementation: preemption-bounded exhaustive DFS (state-cached) over the schedules of the rewritten Gateway.Handler processing a client batch, at two granularities (operation subtrees as threads; every goroutine)",
+   technique="stateless model checking of the implementation: preemption-bounded exhaustive DFS (state-cached) over the schedules of the rewritten Gateway.Handler processing a client batch, at two granularities (operation subtrees as threads; every goroutine); plus a race complement pass that guards the exploration's data-race-freedom assumption (client batches and upload batches free-running in a -race build of the Engine A worker; a data race in the code under test is reported as a violation)",
    text="Every batch of length 0..3 over a 10-operation pool (queries on both services, cross-service, a mutation, introspection, an invalid operation, service errors, a transport fault): every schedule within the bound (operation-grained: PB<=1 for length<=2, PB 0 for length 3 quick; fine-grained PB<=1 on selected batches) must yield an array of N results with result i equal to the answer operation i receives alone, and no deadlock/fatal/leak.",
    note="Trusted: vrewrite/vrt; the operation-grained mode fixes the default order inside one operation's goroutine subtree; schedules beyond the bound are not covered.",
    ref="DESIGN.md §6 C08"),
